@@ -31,6 +31,7 @@ class Session(object):
         self.params = params or {}
         self.symbols = []       # (name, kind, var, meta)
         self._names = set()
+        self._objs = {}
         self.violations = []
         self.reached = {}       # label -> count
         self.notes = {}
@@ -45,6 +46,30 @@ class Session(object):
         self.symbols.append((name, kind, var, meta))
 
     def int(self, name, lo=None, hi=None):
+        if name in self._objs:
+            return self._objs[name]
+        r = self._objs[name] = self._int(name, lo, hi)
+        return r
+
+    def bool(self, name):
+        if name in self._objs:
+            return self._objs[name]
+        r = self._objs[name] = self._bool(name)
+        return r
+
+    def enum(self, cls, name, domain=None):
+        if name in self._objs:
+            return self._objs[name]
+        r = self._objs[name] = self._enum(cls, name, domain)
+        return r
+
+    def choice(self, name, pool):
+        if name in self._objs:
+            return self._objs[name]
+        r = self._objs[name] = self._choice(name, pool)
+        return r
+
+    def _int(self, name, lo=None, hi=None):
         if self.mode == "concrete":
             self._names.add(name)
             return int(self.assignment.get(name, lo if lo is not None else 0))
@@ -59,14 +84,14 @@ class Session(object):
             self.ex.constrain(z3.And(cs) if len(cs) > 1 else cs[0])
         return SymInt(v)
 
-    def bool(self, name):
+    def _bool(self, name):
         if self.mode == "concrete":
             return bool(self.assignment.get(name, False))
         v = z3.Bool(name)
         self._reg(name, "bool", v)
         return SymBool(v)
 
-    def enum(self, cls, name, domain=None):
+    def _enum(self, cls, name, domain=None):
         domain = list(domain) if domain is not None else list(cls)
         if self.mode == "concrete":
             n = self.assignment.get(name, domain[0].name)
@@ -77,7 +102,7 @@ class Session(object):
                                     lambda: z3.Or([v == m.value for m in domain])))
         return SymEnum(cls, v, domain)
 
-    def choice(self, name, pool):
+    def _choice(self, name, pool):
         pool = list(pool)
         if self.mode == "concrete":
             return pool[int(self.assignment.get(name, 0))]
